@@ -336,6 +336,11 @@ func (c *Compiler) Compile(node parser.Node) error {
 			c.emit(node, parser.OpGetFree, symbol.Index)
 		}
 	case *parser.ArrayLit:
+		// the element count is a two-byte operand of OpArray
+		if len(node.Elements) > 65535 {
+			return c.errorf(node, "too many elements in array literal (%d > 65535)",
+				len(node.Elements))
+		}
 		for _, elem := range node.Elements {
 			if err := c.Compile(elem); err != nil {
 				return err
@@ -343,6 +348,11 @@ func (c *Compiler) Compile(node parser.Node) error {
 		}
 		c.emit(node, parser.OpArray, len(node.Elements))
 	case *parser.MapLit:
+		// twice the element count is a two-byte operand of OpMap
+		if len(node.Elements)*2 > 65535 {
+			return c.errorf(node, "too many elements in map literal (%d > 32767)",
+				len(node.Elements))
+		}
 		for _, elt := range node.Elements {
 			// key
 			if len(elt.Key) > MaxStringLen {
@@ -701,6 +711,11 @@ func (c *Compiler) compileAssign(
 	if op == token.Define && numSel > 0 {
 		// using selector on new variable does not make sense
 		return c.errorf(node, "operator ':=' not allowed with selector")
+	}
+	// the selector count is a one-byte operand of OpSetSel*
+	if numSel > 255 {
+		return c.errorf(node, "too many selectors in assignment (%d > 255)",
+			numSel)
 	}
 
 	_, isFunc := rhs[0].(*parser.FuncLit)
